@@ -319,3 +319,42 @@ Proof.
   replace (Z.to_nat (Z.of_nat nvec - Z.of_nat (List.length bs))) with 0%nat by lia.
   intros H; now elim H.
 Qed.
+
+(* ------------------------------------------------------------------------ *)
+(* LatticeSpec.__getitem__(tuple): reads the array with the LAST index       *)
+(* fastest — the opposite of items(); it is not used by the converter        *)
+(* ------------------------------------------------------------------------ *)
+Fixpoint last_fastest_index (bs : bounds) (idx : list Z) : Z :=
+  match bs, idx with
+  | (lo, hi) :: r, i :: tl => (i - lo) * size r + last_fastest_index r tl
+  | _, _ => 0
+  end.
+
+Lemma getitem_index_spec bs : forall arg acc, in_ranges arg bs ->
+  getitem_index bs arg acc = Ok (acc * size bs + last_fastest_index bs arg).
+Proof.
+  induction bs as [|[lo hi] r IH]; intros arg acc Hin; inversion Hin as [|i b tl r' Hi Htl]; subst.
+  - cbn [getitem_index last_fastest_index]. rewrite size_nil. f_equal; lia.
+  - cbn [fst snd] in Hi. cbn [getitem_index last_fastest_index].
+    replace ((i <? lo) || (hi <? i)) with false by lia.
+    rewrite (IH _ _ Htl), size_cons. f_equal. lia.
+Qed.
+
+Theorem getitem_tuple_last_fastest bs spec arg : in_ranges arg bs ->
+  spec_getitem_tuple bs spec arg = py_list_get spec (last_fastest_index bs arg).
+Proof.
+  intros Hin. unfold spec_getitem_tuple.
+  assert (Hl : List.length arg = List.length bs) by (induction Hin; cbn; lia).
+  rewrite Hl, Nat.eqb_refl. cbn [negb]. rewrite (getitem_index_spec bs arg 0 Hin). cbn [bind].
+  f_equal.
+Qed.
+
+(* so indexing by a tuple disagrees with items(): [(1,2);(0,1)], element (2,0) *)
+Theorem getitem_tuple_disagrees_with_items :
+  exists bs spec idx u v,
+    items bs spec = Ok (combine (indices bs) spec) /\ In (idx, u) (combine (indices bs) spec) /\
+    spec_getitem_tuple bs spec idx = Ok v /\ u <> v.
+Proof.
+  exists [(1, 2); (0, 1)], [10; 11; 12; 13], [2; 0], 11, 12.
+  repeat split; try reflexivity; [vm_compute; tauto|lia].
+Qed.
